@@ -419,4 +419,18 @@ theorem store_eq_log_run (store : Store) (ts : List Task) (sched : List Act) :
     congr 1
     simp [Function.comp_def]
 
+/-- the `isTx` flag of a task never changes -/
+theorem isTx_run (store : Store) (ts : List Task) (sched : List Act) (i : Nat) :
+    (((World.init store ts).run sched).tasks i).isTx = ((World.init store ts).tasks i).isTx := by
+  refine run_invariant (P := fun w => (w.tasks i).isTx = ((World.init store ts).tasks i).isTx) ?_ sched _ rfl
+  intro w a h
+  cases a with
+  | adv d => exact (wake_frame (w.now + d) (w.tasks i)).1.trans h
+  | run tid =>
+    show ((w.runTask tid).tasks i).isTx = _
+    by_cases hi : i = tid
+    · subst hi; rw [runTask_tasks_self, (taskStep_isTx _ _ _ _ _).1]; exact h
+    · rw [runTask_tasks_ne w tid hi]; exact h
+
+
 end CashewsVerif.TxSched
